@@ -98,6 +98,25 @@ CORPUS_DOCS = [
 ]
 
 
+# values that LOOK like "nothing was said" but are not the constructor's default: the unconstrained element under every element-valued
+# keyword, zero / empty values under the others - each of them must appear in the repr
+_E = {"k": "Element", "kw": {}}
+CORPUS_DOCS += [
+    {"classes": {}, "order": [], "root": {"k": "Element", "kw": {"additionalProperties": _E}}},
+    {"classes": {}, "order": [], "root": {"k": "Element", "kw": {"items": [{"k": "String", "kw": {}}, {"k": "Integer", "kw": {}}], "additionalItems": _E}}},
+    {"classes": {}, "order": [], "root": {"k": "Array", "items": [{"k": "String", "kw": {}}], "kw": {"additionalItems": _E}}},
+    {"classes": {}, "order": [], "root": {"k": "Array", "items": _E, "kw": {"additionalItems": _E, "contains": _E}}},
+    {"classes": {}, "order": [], "root": {"k": "Not", "element": {"k": "Element", "kw": {"additionalProperties": _E, "propertyNames": _E, "contains": _E, "items": _E}}}},
+    {"classes": {}, "order": [], "root": {"k": "Element", "kw": {"patternProperties": {"^a": {"k": "Element", "kw": {"additionalItems": _E}}},
+                                                                   "properties": {"p": {"e": {"k": "Element", "kw": {"additionalProperties": _E}}, "required": False, "source": None}},
+                                                                   "dependencies": {"k": _E, "l": []}}}},
+    {"classes": {}, "order": [], "root": {"k": "Element", "kw": {"minItems": 0, "minLength": 0, "minProperties": 0, "maxItems": 0, "maxLength": 0, "maxProperties": 0,
+                                                                   "minimum": 0, "maximum": 0, "exclusiveMinimum": 0, "exclusiveMaximum": 0, "pattern": "", "format": "",
+                                                                   "required": [], "enum": [], "dependencies": {}, "patternProperties": {}, "properties": {}, "items": []}}},
+    {"classes": {}, "order": [], "root": {"k": "AnyOf", "elements": [_E, {"k": "Nothing"}], "default": False}},
+]
+
+
 def run(tier, seed, replay=None):
     from statham.schema.property import Property, _Property
     res = Result("C18", tier, seed)
